@@ -518,7 +518,8 @@ func (m *MonC06) judge(s *SlashRecord) {
 	if msg != "" {
 		if merged {
 			if m2, _ := SlashModelCheck(w, s.Pre, s.Post, s.Val, s.Fraction, m.R.mergedHits(s)); m2 == "" {
-				rep.KnownFinding("C07", "redelegation-merge", "merged redelegation record over-slashes the destination (seen by the C06 monitor)")
+				rep.KnownFinding("C06", "redelegation-merge", "slash of %s: the destination of a merged redelegation record (two sources, one record) loses f x the merged balance; other positions there gain accordingly", w.Name(s.Val))
+				rep.Class("C06.known.redelegation-merge")
 				return
 			}
 		}
